@@ -2,6 +2,69 @@ import SLModel.Core.Script
 /-! Lemmas about the script compiler and evaluator (`Core/Script`), used by `Props/C16`. -/
 namespace SL.Script
 
+/-! ### the tokenizer's fuel -/
+
+theorem takeNum_len : ∀ (cs : List Nat) (dots : Nat) (acc lit rest : List Nat),
+    takeNum cs dots acc = some (lit, rest) → rest.length ≤ cs.length
+  | [], _, acc, lit, rest, h => by simp [takeNum] at h; simp [← h.2]
+  | c :: cs, dots, acc, lit, rest, h => by
+    unfold takeNum at h
+    split at h
+    · have := takeNum_len cs _ _ _ _ h; simp; omega
+    · split at h
+      · split at h
+        · simp at h
+        · have := takeNum_len cs _ _ _ _ h; simp; omega
+      · simp at h; simp [← h.2]
+
+theorem readNumber_len (first : Nat) (cs lit rest : List Nat) (h : readNumber first cs = some (lit, rest)) :
+    rest.length ≤ cs.length := by
+  unfold readNumber at h
+  simp only at h
+  split at h
+  · simp at h
+  · rename_i l r hn
+    split at h
+    · simp at h
+      rw [← h.2]
+      exact takeNum_len _ _ _ _ _ hn
+    · simp at h
+
+theorem takeIdent_len : ∀ (cs acc : List Nat), (takeIdent cs acc).2.length ≤ cs.length
+  | [], acc => by simp [takeIdent]
+  | c :: cs, acc => by
+    unfold takeIdent
+    split
+    · have := takeIdent_len cs (c :: acc); simp; omega
+    · simp
+
+/-- more fuel than characters never changes the result of the tokenizer loop -/
+theorem tokenizeGo_fuel : ∀ (f1 f2 : Nat) (input : List Nat) (expect : Bool) (acc : List Tok),
+    input.length < f1 → input.length < f2 → tokenizeGo f1 input expect acc = tokenizeGo f2 input expect acc
+  | 0, _, _, _, _, h1, _ => by omega
+  | _, 0, _, _, _, _, h2 => by omega
+  | a + 1, b + 1, [], expect, acc, _, _ => by simp [tokenizeGo]
+  | a + 1, b + 1, c :: cs, expect, acc, h1, h2 => by
+    have hl1 : cs.length < a := by simp at h1; omega
+    have hl2 : cs.length < b := by simp at h2; omega
+    have ih := fun (r : List Nat) (e : Bool) (ac : List Tok) (hr : r.length ≤ cs.length) =>
+      tokenizeGo_fuel a b r e ac (by omega) (by omega)
+    simp only [tokenizeGo]
+    repeat' split
+    all_goals first
+      | rfl
+      | (apply ih; first | exact Nat.le_refl _ | (simp; done))
+      | (rename_i hrn; apply ih; have := readNumber_len _ _ _ _ hrn; simp at this ⊢; omega)
+      | (rename_i hst
+         have hc : isIdentCont c = true := by
+           simp only [isIdentStart, isIdentCont, Bool.or_eq_true] at hst ⊢
+           rcases hst with h | h
+           · exact Or.inl (Or.inl h)
+           · exact Or.inr h
+         have he : takeIdent (c :: cs) [] = takeIdent cs [c] := by simp [takeIdent, hc]
+         rw [he]
+         apply ih
+         exact takeIdent_len cs [c])
 /-! ### static depth -/
 
 theorem tdepth_append : ∀ (a b : List Tok) (d : Nat),
